@@ -3,7 +3,7 @@
    builds one real *token.Token per entry, by name, and refuses to run (exit 2) when the order of
    the real token-type ordinals / literals / printed type names differs from the ranks below.
    pA, pB, pC are three distinct Kombinationen all named "Punkt" (declared in different modules);
-   pAZ is a type alias of Zahl (same key as pZ, by alias transparency).                          *)
+   pAZ is a type alias of Zahl (same key as pZ, by alias transparency), pVL one of Zahlen Liste.   *)
 EXTENDS Naturals, Sequences, TokenKeys
 Lit(ty, rank)  == [cls |-> "lit", ty |-> ty, lit |-> rank, ref |-> FALSE, list |-> FALSE, tname |-> 0, tid |-> 0]
 Kw(ty)         == [cls |-> "kw",  ty |-> ty, lit |-> 0,    ref |-> FALSE, list |-> FALSE, tname |-> 0, tid |-> 0]
@@ -25,9 +25,10 @@ Vocab == <<
    Par(FALSE, FALSE, NPunkt, 6),   \* 11 pC       <a> Punkt (module c)
    Lit(6, 1),                      \* 12 int1     INT "1"
    Kw(23),                         \* 13 nicht    token.NICHT
-   Par(FALSE, FALSE, NByte, 7)     \* 14 pBy      <a> Byte
+   Par(FALSE, FALSE, NByte, 7),    \* 14 pBy      <a> Byte
+   Par(FALSE, TRUE,  NZahlenListe, 5)  \* 15 pVL  <a> Vektor = alias of Zahlen Liste (same key as pZL, by alias transparency)
 >>
-VocabNames == <<"foo", "zeige", "mit", "pZ", "pT", "pZr", "pA", "pB", "pAZ", "pZL", "pC", "int1", "nicht", "pBy">>
+VocabNames == <<"foo", "zeige", "mit", "pZ", "pT", "pZr", "pA", "pB", "pAZ", "pZL", "pC", "int1", "nicht", "pBy", "pVL">>
 VocabSet == {Vocab[i] : i \in 1..Len(Vocab)}
 
 ASSUME StrictWeakOrder(VocabSet)
